@@ -67,6 +67,33 @@ impl FromStr for PEP440 {
             .captures(s)
             .ok_or_else(|| ZervError::InvalidVersion(format!("Invalid PEP440 version: {s}")))?;
 
+        // a number that does not fit u32 cannot be represented: reject it instead of
+        // silently turning it into 0
+        let numeric_fields = ["epoch", "pre_n", "post_n1", "post_n2", "dev_n"]
+            .into_iter()
+            .filter_map(|name| captures.name(name))
+            .map(|m| m.as_str())
+            .chain(
+                captures
+                    .name("release")
+                    .into_iter()
+                    .flat_map(|m| m.as_str().split('.')),
+            )
+            .chain(
+                captures
+                    .name("local")
+                    .into_iter()
+                    .flat_map(|m| m.as_str().split(['.', '-', '_']))
+                    .filter(|part| part.chars().all(|c| c.is_ascii_digit())),
+            );
+        for field in numeric_fields {
+            if field.parse::<u32>().is_err() {
+                return Err(ZervError::InvalidVersion(format!(
+                    "Invalid PEP440 version: {s} (number {field} is too large)"
+                )));
+            }
+        }
+
         let release = captures
             .name("release")
             .map(|m| {
